@@ -137,6 +137,9 @@ def c04_cfgs(tier):
          # the camera's frames grow during the run: a frame larger than what is left behind the head and in front of the drained reader (forced wrap)
          cfg('c04', 'D2', n=4, ringf=2, ringx=8, reshape_at=2, reshape_w=64, reshape_h=1, **base), cfg('c04', 1, n=4, ringf=2, ringx=8, reshape_at=1, reshape_w=64, reshape_h=1, **base),
          cfg('c04', 'D2', n=5, ringf=2, ringx=8, reshape_at=2, reshape_w=64, reshape_h=1, client=1, **base), cfg('c04', 'D2', n=4, ringf=2, ringx=8, w=64, reshape_at=2, reshape_w=3, reshape_h=1, **base),
+         # an ordinary acquisition after one whose storage failed (leftover worker state must not cost it frames)
+         cfg('c06', 'D1', ends='ss', prog='z', fault_first=0, append_ms=12, n=3, ringf=2, ringx=8, exposure=4, **{'from': 1}),
+         cfg('c06', 'D2', ends='ss', prog='z', fault_first=1, n=3, ringf=2, ringx=8, exposure=4, **{'from': 1}),
          # the real devices of the common driver in the loop: simulated camera (with its streamer thread) + raw file writer
          cfg('c04real', 1, n=3, ringf=2, ringx=8), cfg('c04real', 'D2', n=4, ringf=1, ringx=1), cfg('c04real', 'D2', n=3, trigger=1),
          cfg('c04real', 'D2', n=3, abort_instead=1)]
@@ -189,6 +192,8 @@ def c06_cfgs(tier):
     lag = dict(exposure=4, n=5, ringf=3, ringx=8)
     q += [cfg('c06', 'D1', ends=e, prog=p, **base) for e in ('as', 'aa', 'asa') for p in ('mL', 'L', 'wmL')] + [cfg('c06', 'D2', ends='as', prog='mL', **base)]
     q += [cfg('c06', 'D1', ends='ss', prog=p, **lag) for p in ('wp', 'wwp', 'wpp', 'pwp', 'wwpp')] + [cfg('c06', 'D2', ends='s', prog='wwp', **lag), cfg('c06', 'D2', ends='sa', prog='wpp', **lag)]
+    # the camera's frames grow during the acquisition (forced wrap of the ring under a caught-up monitor)
+    q += [cfg('c06', 'D1', ends=e, prog=p, reshape_at=k, reshape_w=64, reshape_h=1, **{**base, 'n': 4}) for e in ('s', 'a') for p in ('m', 'mm', 'wm', 'p') for k in (1, 2)]
     # the first acquisition's storage fails with frames still queued; the client first maps during the second acquisition
     q += [cfg('c06', 'D1', ends=e, prog=p, fault_first=k, append_ms=12, **{**base, 'from': 1}) for e in ('ss', 'as') for p in ('m', 'wm') for k in (0, 1)]
     if tier == 'quick':
@@ -331,7 +336,9 @@ def c18_cfgs(tier):
             cfg('c18', 'D2', trigger=1, frames=2, ctl='t', ctl2='tws'), cfg('c18', 'D2', trigger=1, frames=1, ctl='s', ctl2='twts'),
             # a frame call that fails (buffer too small), then re-configure and restart: the count restarts, one streamer only
             cfg('c18', 'D2', trigger=0, frames=2, ctl='w', failfirst=1), cfg('c18', 'D2', trigger=0, frames=2, ctl='ws', failfirst=1), cfg('c18', 'D2', trigger=1, frames=2, ctl='tw', failfirst=1, ctl2='tws'),
-            cfg('c18', 'D1', trigger=0, frames=3, ctl='www', failfirst=1, ctl2='wwws'), cfg('c18', 'D2', trigger=0, frames=2, ctl='www', failfirst=1, ctl2='wws')]
+            cfg('c18', 'D1', trigger=0, frames=3, ctl='www', failfirst=1, ctl2='wwws'), cfg('c18', 'D2', trigger=0, frames=2, ctl='www', failfirst=1, ctl2='wws'),
+            # a pending frame call fails because the camera was re-configured to a larger image meanwhile: later frame calls and stop still return
+            cfg('c17r', 'D2', w=8, h=8, w2=64, h2=64, type2=1, kind=0, frames=2), cfg('c17r', 'D2', w=4, h=4, w2=32, h2=32, kind=2, type2=0, trigger=1, frames=2), cfg('c17r', 1, w=8, h=8, w2=64, h2=64, kind=2, frames=2)]
     if tier == 'quick':
         return out
     t = list(out)
@@ -380,7 +387,7 @@ def run(pid, tier):
     rep = C.Report(pid, tier)
     exe = build_rt('simcam_main' if pid == 'C18' else 'rt_main')
     fn, label = TABLE[pid]
-    budget = C.deadline_s(3000 if tier == 'thorough' else 600)
+    budget = C.deadline_s(1800 if tier == 'thorough' else 600)
     t0 = time.time()
     cfgs = fn(tier)
     if pid in ('C08', 'C05', 'C18'):
